@@ -75,6 +75,7 @@ class World:
         self.abort = False
         self.events = []              # matched communications, in order
         self.nchoice = 0
+        self.on_in = self.on_out = None   # hooks around every time slice of a task (per-task process-global state)
 
     # -- task side -----------------------------------------------------------
     def _block(self, r, op):
@@ -108,8 +109,12 @@ class World:
     def _resume(self, r):
         self.back.clear()
         self.op[r] = None
+        if self.on_in is not None:
+            self.on_in(r)
         self.go[r].set()
         self.back.wait()
+        if self.on_out is not None:
+            self.on_out(r)
 
     def run(self, fns):
         th = [threading.Thread(target=self._task, args=(r, fns[r]), daemon=True) for r in range(self.T)]
@@ -187,6 +192,8 @@ class World:
                     for x in data[1:]:
                         tot = tot + x
                     out = [tot for _ in range(T)]
+                elif kind == "Barrier":
+                    out = [None for _ in range(T)]
                 else:  # bcast / Bcast
                     roots = {self.op[r][3] for r in range(T)}
                     if len(roots) != 1:
@@ -217,6 +224,9 @@ class Comm:
 
     def allreduce(self, x):
         return self.w._block(self.r, ("coll", "allreduce", x, None))
+
+    def Barrier(self):
+        self.w._block(self.r, ("coll", "Barrier", None, None))
 
     def bcast(self, obj, root=0):
         return self.w._block(self.r, ("coll", "bcast", obj, root))
